@@ -6,6 +6,8 @@ import (
 	"fmt"
 	"io"
 	"strings"
+	"sync"
+	"sync/atomic"
 
 	"github.com/creachadair/mds/shell"
 	"verif/vk"
@@ -85,10 +87,64 @@ func ntQuote(s string) bool {
 	return false
 }
 
-// checkQuoteOne is O1 + O2 for a single string.
-func checkQuoteOne(s string) string {
+// keeper remembers strings the package returned, each with a private copy
+// taken at once (strings.Clone).  Go strings are immutable: a result that was
+// right when it was returned must read the same after any number of later
+// calls.  A result handed out over memory the package goes on using (a pooled
+// buffer) passes every immediate comparison and changes only later.
+type keeper struct {
+	what []string // what the string is, e.g. "Quote(s)"
+	idx  []int    // element / field index, -1 if none
+	got  []string // the string as the package returned it
+	cp   []string // strings.Clone(got), taken before any other call
+}
+
+func (k *keeper) add(what string, idx int, got string) {
+	k.what, k.idx, k.got, k.cp = append(k.what, what), append(k.idx, idx), append(k.got, got), append(k.cp, strings.Clone(got))
+}
+
+func abbrev(s string) string {
+	if len(s) > 96 {
+		return fmt.Sprintf("%q…(%d bytes)…%q", s[:40], len(s), s[len(s)-24:])
+	}
+	return fmt.Sprintf("%q", s)
+}
+
+// check compares every kept string with its copy.
+func (k *keeper) check() string {
+	for i, g := range k.got {
+		if g != k.cp[i] {
+			what := k.what[i]
+			if k.idx[i] >= 0 {
+				what = fmt.Sprintf("%s [%d]", what, k.idx[i])
+			}
+			return fmt.Sprintf("the string returned as %s was %s when it was returned (and verified) and reads %s after later Quote/Join/Split calls: a returned string changed its content", what, abbrev(k.cp[i]), abbrev(g))
+		}
+	}
+	return ""
+}
+
+// disturb makes a few calls that differ from everything a case does on its
+// own behalf (other sizes, other bytes), so that memory the package recycles
+// gets overwritten with something else.
+func disturb() {
+	shell.Quote("$HOME is 'here'")
+	shell.Join([]string{"$HOME", "y z", "", "it's"})
+	shell.Split(otherInput)
+}
+
+// checkQuoteKeep is O1 + O2 for a single string; the strings obtained go into keep.
+func checkQuoteKeep(s string, keep *keeper, idx int) string {
 	q := shell.Quote(s)
+	if keep != nil {
+		keep.add("Quote(element)", idx, q)
+	}
 	fs, ok := shell.Split(q)
+	if keep != nil {
+		for _, f := range fs {
+			keep.add("the field of Split(Quote(element))", idx, f)
+		}
+	}
 	if !ok || len(fs) != 1 || fs[0] != s {
 		return fmt.Sprintf("Split(Quote(%q)) = %q, %v; want [%q], true (Quote gives %q)", s, fs, ok, s, q)
 	}
@@ -122,10 +178,15 @@ func runQuote(c QuoteCase, o *vk.Obs) string {
 		}
 	}
 	ss := c.strings()
+	keep := &keeper{}
 	o.Step()
 	j := shell.Join(ss)
+	keep.add("Join(list)", -1, j)
 	o.Step()
 	fs, ok := shell.Split(j)
+	for i, f := range fs {
+		keep.add("field of Split(Join(list))", i, f)
+	}
 	o.Step()
 	if !ok || !sameFields(fs, ss) {
 		return fmt.Sprintf("Split(Join(%q)) = %q, %v; want the same list and true (Join gives %q)", ss, fs, ok, j)
@@ -133,18 +194,40 @@ func runQuote(c QuoteCase, o *vk.Obs) string {
 	want := make([]string, len(ss))
 	nt := len(ss) == 0
 	for i, s := range ss {
-		if m := checkQuoteOne(s); m != "" {
+		if m := checkQuoteKeep(s, keep, i); m != "" {
 			return m
 		}
 		want[i] = shell.Quote(s)
+		keep.add("Quote(element), second call", i, want[i])
 		nt = nt || ntQuote(s)
 	}
 	if j != strings.Join(want, " ") {
 		return fmt.Sprintf("Join(%q) = %q is not the quoted elements separated by single spaces %q", ss, j, strings.Join(want, " "))
 	}
+	// every string obtained above was right when it was returned; it must still
+	// be after other calls - now, and after the next case has run (Retain)
+	o.Step()
+	disturb()
+	if m := keep.check(); m != "" {
+		return m
+	}
+	o.Retain(keep.check)
 	if nt {
 		o.NonTrivial()
 	}
+	big, run, maxRun := false, 1, 1
+	for i, s := range ss {
+		big = big || len(s) >= 4096
+		if i > 0 && s == ss[i-1] && len(s) >= 16 {
+			if run++; run > maxRun {
+				maxRun = run
+			}
+		} else {
+			run = 1
+		}
+	}
+	o.ClassIf(big, "kept_Quote_result>=4096_rechecked_after_other_calls")
+	o.ClassIf(maxRun >= 3, "run_of>=3_adjacent_equal_elements(>=16_bytes)")
 	o.ClassIf(len(ss) == 0, "empty_list")
 	o.ClassIf(len(ss) >= 2, "list>=2")
 	o.ClassIf(c.Pad > 0, "long_string(crosses 4096)")
@@ -545,5 +628,101 @@ func runShellSplitCase(c ShellSplitCase, o *vk.Obs) string {
 			return fmt.Sprintf("%s splits `set -- %s` into %q but Split(%q) = %q", sh.name, in, got, in, fs)
 		}
 	}
+	return ""
+}
+
+// ---------------------------------------------------------------------------
+// C16, leg conc: several goroutines tokenize at the same time.
+
+// ConcCase: one input per goroutine; every goroutine tokenizes its own input
+// Iters times (package Split and a Scanner of its own, in alternation) while
+// the others do the same with theirs.  Split is a function of its argument and
+// a Scanner of the reader it was given: what other goroutines tokenize at the
+// same moment must not matter (the package itself pools scanners with
+// sync.Pool for concurrent callers).
+type ConcCase struct {
+	Ins   [][]int `json:"ins"`
+	Iters int     `json:"iters"`
+}
+
+func scanAll(sc *shell.Scanner, limit int) ([]string, bool) {
+	var got []string
+	for sc.Next() {
+		got = append(got, sc.Text())
+		if len(got) > limit {
+			break
+		}
+	}
+	return got, sc.Complete()
+}
+
+func runConc(c ConcCase, o *vk.Obs) string {
+	ins := make([]string, len(c.Ins))
+	refs := make([]refResult, len(c.Ins))
+	nt := false
+	for g, v := range c.Ins {
+		ins[g] = fromInts(v)
+		// alone first: a discrepancy here has nothing to do with concurrency
+		ref, m := checkSplit(ins[g])
+		if m != "" {
+			return m
+		}
+		got, complete := scanAll(shell.NewScanner(strings.NewReader(ins[g])), len(ins[g])+2)
+		if !sameFields(got, ref.Fields) || complete != ref.Complete {
+			return fmt.Sprintf("input %q: a Scanner yields %q, Complete = %v; reference %q, %v", ins[g], got, complete, ref.Fields, ref.Complete)
+		}
+		refs[g] = ref
+		nt = nt || ntSplit(ref)
+		o.ClassIf(ref.Modes["dq-escape"], "escape_in_double_quotes")
+	}
+	o.Step()
+	msgs := make([]string, len(ins))
+	var stop atomic.Bool
+	var wg sync.WaitGroup
+	start := make(chan struct{})
+	for g := range ins {
+		wg.Add(1)
+		go func(g int) {
+			defer wg.Done()
+			in, ref := ins[g], refs[g]
+			own := shell.NewScanner(strings.NewReader(""))
+			<-start
+			msgs[g] = vk.Guard(func() string {
+				for it := 0; it < c.Iters && !stop.Load(); it++ {
+					var got []string
+					var complete bool
+					how := "Split"
+					switch it % 3 {
+					case 0:
+						got, complete = shell.Split(in)
+					case 1:
+						how = "a Scanner of its own (reused through Reset)"
+						own.Reset(strings.NewReader(in))
+						got, complete = scanAll(own, len(in)+2)
+					default:
+						how = "a new Scanner"
+						got, complete = scanAll(shell.NewScanner(strings.NewReader(in)), len(in)+2)
+					}
+					if complete != ref.Complete || !sameFields(got, ref.Fields) {
+						stop.Store(true)
+						return fmt.Sprintf("while %d goroutines each tokenized an input of their own at the same time, %s over %q gave %q, %v (iteration %d of goroutine %d); alone, and by the reference tokenizer, it is %q, %v",
+							len(ins), how, in, got, complete, it, g, ref.Fields, ref.Complete)
+					}
+				}
+				return ""
+			})
+		}(g)
+	}
+	close(start)
+	wg.Wait()
+	for _, m := range msgs {
+		if m != "" {
+			return m
+		}
+	}
+	if nt {
+		o.NonTrivial()
+	}
+	o.Class(fmt.Sprintf("goroutines=%d", len(ins)))
 	return ""
 }
